@@ -12,8 +12,10 @@ for fn in sorted(os.listdir(os.path.join(V, 'contracts'))):
     if not fn.endswith('.py') or fn.startswith('_'):
         continue
     mod = importlib.import_module('contracts.' + fn[:-3])
-    for regname in ('CONTRACTS', 'REGISTRY'):
+    for regname in ('CONTRACTS', 'REGISTRY', 'LOCK_EXTRA'):
         reg = getattr(mod, regname, None)
+        if isinstance(reg, (list, tuple)):
+            reg = {k: None for k in reg}         # functions executed in slice mode
         if not isinstance(reg, dict):
             continue
         for key in reg:
